@@ -31,7 +31,8 @@ package veneers
 //
 // The value converters (mutually recursive through envelopes) only build new values.
 //@ func AssignmentValue.AsIR
-//@   property C17
+//@   property C17 C04
+//@   requires path: value.Envelope != nil ==> len(assignmentPath) >= 1
 //@   modifies nothing
 //
 //@ func AssignmentEnvelope.AsIR
@@ -39,5 +40,5 @@ package veneers
 //@   modifies nothing
 //
 //@ func EnvelopeFieldValue.AsIR
-//@   property C17
+//@   property C17 C04
 //@   modifies nothing
